@@ -418,8 +418,14 @@ def run_playback(g, h, test_src, logdir):
 INCLUDES = [
     "swimos_runtime__timeout_coord.rs",
     "playback/swimos_runtime__timeout_coord__verif_kani.rs",
+    "swimos_agent__queues.rs",
+    "playback/swimos_agent__lanes__queues__verif_kani.rs",
     "swimos_byte_channel__channel.rs",
     "playback/swimos_byte_channel__channel__verif_kani.rs",
+    "swimos_runtime__reporting.rs",
+    "playback/swimos_runtime__agent__reporting__verif_kani.rs",
+    "swimos_agent__value_store.rs",
+    "playback/swimos_agent__stores__value__verif_kani.rs",
 ]
 
 
